@@ -43,7 +43,7 @@ PROPS = {
                 "order (salience over the i32 range incl. negatives and extremes, no-loop / lock-on-active with and without `true`, agenda-group, activation-group incl. names such as \"no-loop\" and \"salience 7\", "
                 "date-effective / date-expires); condition trees to depth 5 over the typed core of C01 with redundant parentheses; literals of every type incl. strings with GRL metacharacters (; && || { } ( ) = , // then "
                 "when rule salience, quotes of the other kind, non-ASCII) in a third of the files, and strings with runs of blanks, leading / trailing blanks, tabs and non-ASCII spaces everywhere; action forms: assignment (literal, arithmetic, concatenation, field copy, array), +=, Log, retract($X), ActivateAgendaGroup, "
-                "ScheduleRule, CompleteWorkflow, custom function calls with 0..3 arguments; layout: blanks, tabs, line breaks between any two tokens, comment lines and trailing comments anywhere (1 file in 12 with comments "
+                "ScheduleRule, CompleteWorkflow, custom function calls and `$Object.method(...)` calls with 0..4 arguments (half of them with string arguments made of apostrophes and commas); layout: blanks, tabs, line breaks between any two tokens, comment lines and trailing comments anywhere (1 file in 12 with comments "
                 "containing a closing brace or a rule header). Second stream: bare when clauses (depth to 6, metacharacter strings in half of them, arbitrary blanks and redundant parentheses) through the hook "
                 "verif_parse_when_clause, compared with the Coq model of the condition-tree parser AND with the written tree. Observed per rule: name, salience, flags, groups, dates, condition tree, action list. "
                 "non-trivial = at least one rule",
@@ -52,9 +52,9 @@ PROPS = {
                 "parentheses protect (a text that may split at its own top level does not split once parenthesised); a top-level && / || between two non-splitting texts separates exactly there into exactly the two trimmed "
                 "texts; such texts compose. The model of parse_when_clause / split_logical_operator / the single-comparison pattern is compared with the code on every generated clause; the Coq-defined expectation exp_rule "
                 "(what was written, independent of layout by construction) is compared with the parser's output on every generated file.",
-        "level_note": "Partial: the regular expressions (rexile) that carve a file into rules and a rule into header / when / then are not modelled - their result is observed and compared with exp_rule; Known findings (monitor classes 2, 3, 4): a closing brace in a string literal, "
-                "blank-then-blank in a when-clause string, a brace or rule header in a comment. The `$Obj.method(args)` action form is outside the generated grammar (the method-call pattern never matches; such "
-                "statements become custom actions). Trusted: Coq kernel; model of grl.rs after fixes 804c5fd ee6c06e b8f8cd8 f796657 389caa3 7515c16 fbc30e7 751cd5b 4ea3eb2 601e5f7 94337f6; hook 26bcb2e; harness; extraction. Axioms: none.",
+        "level_note": "Partial: the regular expressions (rexile) that carve a file into rules and a rule into header / when / then are not modelled - their result is observed and compared with exp_rule; Known findings (monitor classes 2, 3, 4, 5): a closing brace in a string literal, "
+                "blank-then-blank in a when-clause string, a brace or rule header in a comment, and the `$Obj.method(args)` action form coming back as the custom action `method(args)` (the method-call pattern never "
+                "matches; class 5 only when the observation is exactly the expectation with that substitution). Trusted: Coq kernel; model of grl.rs after fixes 804c5fd ee6c06e b8f8cd8 f796657 389caa3 7515c16 fbc30e7 751cd5b 4ea3eb2 601e5f7 94337f6; hook 26bcb2e; harness; extraction. Axioms: none.",
         "trusted_base": ["rexile 0.5.8 regular expressions of grl.rs: not modelled"],
         "assumptions": ["string literals contain no quote character of their own kind (GRL has no escape sequences)", "dates in the form YYYY-MM-DD"],
     },
@@ -130,8 +130,8 @@ PROPS = {
         "harness_timeout": 3000,
         "rule": "14 entry points (evaluate_expression on an identifier alphabet with exact prediction; evaluate_expression, GRLParser::parse_rules / parse_with_modules, QueryParser, ExpressionParser, GRLQueryParser::parse / parse_queries, "
                 "parse_stream_pattern / parse_stream_join_pattern, parse_aggregate_query, DisjunctionParser, NestedQueryParser::parse / has_nested on arbitrary text) x streams: random strings over the identifier alphabet; every "
-                "single insertion of 12 multi-byte characters (incl. 6 whose case mapping changes the UTF-8 length: U+0130, U+212A, U+023A, U+1E9E, U+0390, U+FB01) into 5 expressions; every seed x blank position x entry point with such a character directly before the blank, and with it earlier plus a multi-byte character after the following token; 16 valid seed texts and their mutants (truncate, duplicate a segment, insert a multi-byte character / a token, splice with another seed, delete, "
-                "replace by a delimiter); token soups of 48 GRL/query tokens; lossily decoded raw bytes; prefix chains and nestings (!, (, [, {, NOT, -, !(, exists() of depth 33, 500 and up to 4 KiB. The batch runs in a child "
+                "single insertion of 12 multi-byte characters (incl. 6 whose case mapping changes the UTF-8 length: U+0130, U+212A, U+023A, U+1E9E, U+0390, U+FB01) into 5 expressions; every seed x blank position x entry point with such a character directly before the blank, and with it earlier plus a multi-byte character after the following token; 19 valid seed texts (incl. string literals with escaped quotes / backslashes, a window duration at the u64 limit) and their mutants (truncate, duplicate a segment, insert a multi-byte character / a token, splice with another seed, delete, "
+                "replace by a delimiter, replace a digit run by one of 8 limit numbers); EVERY prefix of every seed (3 entry points each; thorough: all), every seed x digit run x limit number x entry point; token soups of 48 GRL/query tokens; lossily decoded raw bytes; prefix chains and nestings (!, (, [, {, NOT, -, !(, exists() of depth 33, 500 and up to 4 KiB. The batch runs in a child "
                 "process: a panic is caught per case, a stack overflow/abort or 120 s without progress marks the case and the run continues. non-trivial = every case",
         "level_text": "Theorem for the expression evaluator, for EVERY string: no slice off a character boundary or out of range, termination with recursion depth <= length+1 (every slice of the code carries its byte offsets in the "
                 "model, a bad slice is the value RPanic). On the identifier alphabet the model's exact outcome (first failing leaf) is compared with the code. All other entry points are exercised by the fuzzing streams under "
@@ -309,7 +309,8 @@ PROPS = {
         "harness_timeout": 1500,
         "rule": "700 (quick) / 20000 (thorough) random rule sets of 1..24 rules (And/Or/Not trees of integer comparisons to depth 3 over 5 fields, one of them always missing; salience ties; ~10% disabled) x "
                 "max_threads 1..16 x min_rules_per_thread 1..4 x parallelism on/off, each executed 6 (quick) / 20 (thorough) times with the cfg-guarded yield/sleep points in the worker loop enabled; observed per run: "
-                "evaluated count, fired count, the (rule, verdict) set; non-trivial = at least 2 rules",
+                "evaluated count, fired count, the (rule, verdict) set; before every second observed run the SAME engine executes a decoy knowledge base of the same name, size, version counter and rule names "
+                "with negated conditions and reversed saliences (state remembered by the engine between calls shows up in the observed run); non-trivial = at least 2 rules",
         "level_text": "Theorem for every rule set, facts, thread count >= 1, chunking parameters and EVERY order in which worker threads deliver their results: the parallel contexts are a permutation of evaluating the "
                 "enabled rules one by one (same set of verdicts, same evaluated and fired counts); chunking partitions each salience level and the levels partition the enabled rules. The harness compares the real "
                 "engine's verdict sets and counts with the sequential specification under perturbed schedules.",
